@@ -1,4 +1,4 @@
-CONSTANTS EP = {"e1", "e2", "e3"}  Strategies = {"strict", "optimistic", "discovery"}  Fallbacks = {"compatible_only", "none", "all"}  Spellings = {"exact"}
+CONSTANTS EP = {"e1", "e2", "e3"}  Strategies = {"strict", "optimistic", "discovery"}  Fallbacks = {"compatible_only", "none", "all"}  CTypes = {"json"}  Spellings = {"exact"}
 SPECIFICATION Spec
 INVARIANTS TypeOK ServedWhereListed
 CHECK_DEADLOCK FALSE
